@@ -403,6 +403,17 @@ impl Transaction for SecondaryTransaction {
             self.delete_lock.is_some(),
             "delete lock is not held for this txn"
         );
+        // The row handler comes from a scan in another transaction, which may have pinned its
+        // snapshot before a compaction replaced the row-set. A delete vector for a row-set that
+        // is not live in this transaction's snapshot would be silently lost: report a conflict.
+        let live = (self.snapshot.get_rowsets_of(self.table.table_id()))
+            .is_some_and(|rowsets| rowsets.contains(&id.rowset_id()));
+        if !live {
+            return Err(super::TracedStorageError::not_found(
+                "rowset (replaced by a concurrent compaction)",
+                id.rowset_id(),
+            ));
+        }
         self.delete_buffer.push(*id);
         Ok(())
     }
